@@ -947,12 +947,23 @@ def sys_export(name, tiers=("quick", "thorough"), **over):
                 to_sched=sys_to_sched, view="View", cap_quick=400, cap_thorough=6000, timeout=600, simulate_quick=300, simulate_thorough=4000, depth=60)
 
 
+def sys_fixed(tier):
+    """scale: more abandoned calls at once than any fixed-size internal queue holds (all transmitted, then all dropped in one step)"""
+    out = []
+    for n in ((1100,) if tier == "quick" else (1100, 2500)):
+        cfg = {"n": 0, "limit": -1, "maxInFlight": 4096, "buf": 4096, "respBuf": 100}
+        steps = ([{"a": "Connect", "k": 1, "key": 1}, {"a": "Run"}] + [{"a": "Call", "c": i, "k": 1, "dl": 100000} for i in range(1, n + 1)]
+                 + [{"a": "Run"}] + [{"a": "Abandon", "c": i} for i in range(1, n + 1)] + [{"a": "Run"}])
+        out.append(dict(id="sysburst:abandon:%d" % n, cfg=cfg, steps=steps))
+    return out
+
+
 def sys_family(rq, rt):
-    return dict(family="sys", trace_module="Trace_Sys", random_quick=rq, random_thorough=rt, no_mech=True, tag="sys",
+    return dict(family="sys", trace_module="Trace_Sys", random_quick=rq, random_thorough=rt, no_mech=True, tag="sys", fixed=sys_fixed,
                 exports=[sys_export("phased"), sys_export("phased-mif1-nolimit", tiers=("thorough",), Mif=1, L="<-NoL", Calls="{1, 2, 3}", MaxEnv=6)])
 
 
-for _p in ("C01", "C02", "C04", "C10", "C12", "C13"):
+for _p in ("C01", "C02", "C03", "C04", "C10", "C12", "C13"):
     PROPS[_p]["families"].append(sys_family(700, 12000))
     PROPS[_p]["models"].append(sys_model("system-phased", tiers=("quick", "thorough") if _p in ("C12", "C13") else ("thorough",)))
     PROPS[_p]["models"].append(sys_model("system-interleaved", tiers=("thorough",), Phased=False, MaxEnv=6))
@@ -1058,7 +1069,7 @@ _SYS = (" Additionally System.tla (the whole accept pipeline and spawned clients
         "ObsSys.tla, its phased behaviours are exported as schedules, and the real stack (server::incoming combinators, spawn_incoming, "
         "NewClient::spawn on a current-thread tokio runtime with a paused clock, run until idle) is executed on them and on seeded random "
         "schedules; Trace_Sys.tla judges the recorded traces with the same rules (%s).")
-for _p, _r in (("C01", "Inv_C01sys"), ("C02", "Inv_C02sys"), ("C04", "Inv_C04sys"), ("C10", "Inv_C10sys"), ("C12", "Inv_C12sys"), ("C13", "Inv_C13sys")):
+for _p, _r in (("C01", "Inv_C01sys"), ("C02", "Inv_C02sys"), ("C03", "Inv_C03sys"), ("C04", "Inv_C04sys"), ("C10", "Inv_C10sys"), ("C12", "Inv_C12sys"), ("C13", "Inv_C13sys")):
     MANIFEST_TEXT[_p] = dict(MANIFEST_TEXT[_p], text=MANIFEST_TEXT[_p]["text"] + _SYS % _r)
 _OTEL = (" The chain family (real client -> server -> handler -> client chains of depth 1-3) is executed without a tracing subscriber, under a "
          "process-wide OpenTelemetry layer and with the layer scoped to the server side (untraced callers, trace id 0 included); handlers "
